@@ -17,10 +17,18 @@
 //!   row; rustc's accept/reject verdict must equal `Model.AutoTrait.holds` as answered by the
 //!   Lean driver (`autotrait …`). Disagreement = the model's base facts are wrong or the crate
 //!   changed.
-//! * crate `unsafety` (C17): for every row of the public-function table with `nameUnchecked` or
-//!   `hasSafetyDoc` (taken from the same translator that generates `Gen/PubFns.lean`, and
-//!   cross-checked against the Lean driver's `unsafe_rows`) a call WITHOUT `unsafe` that must be
-//!   rejected with E0133, and the same call inside `unsafe {}` that must compile.
+//! * crate `unsafety` (C17): for every row of the public-function table with `nameUnchecked`,
+//!   `hasSafetyDoc` or `forwardsToUnsafe` (a pure forwarder of its parameters to a callee in
+//!   unsafe context) — taken from the same translator that generates `Gen/PubFns.lean`, and
+//!   cross-checked against the Lean driver's `unsafe_rows` — and for every other `unsafe fn`
+//!   row, a call WITHOUT `unsafe` that must be rejected with E0133, and the same call inside
+//!   `unsafe {}` that must compile. Macro-generated methods are called through the public
+//!   trait they implement (`<SelfTy as MutVector>::set_len(…)`).
+//! * crate `selfescape` (C17): for every safe `&self`/`&mut self` method whose result carries a
+//!   region, a program that lets the result outlive a local receiver; rustc's verdict must equal
+//!   the lifetime skeleton's prediction, and a result that contains a reference (or comes from a
+//!   type holding a `&mut` borrow: `Drain`, the `RefMut` guards) must be rejected unless the row
+//!   is a reviewed borrowed-view / never-borrowed function (`escape_exempt`).
 //! * crate `escape` (C17): the hand-written corpus `probes/escape.rs` of borrow-escape programs
 //!   (must be rejected by the borrow checker) and their must-compile twins; the expectation of
 //!   each is also checked against the model (`tied <row>`).
@@ -187,6 +195,16 @@ fn cargo_check(dir: &Path, crates: &[&str]) -> BTreeMap<String, BTreeMap<usize, 
                 if let Some(spans) = msg["spans"].as_array() {
                     for sp in spans {
                         if sp["is_primary"].as_bool() == Some(true) {
+                            // an error inside a macro expansion is attributed to the outermost
+                            // call site (which is in the probe file)
+                            let mut sp = sp;
+                            while !sp["expansion"].is_null() {
+                                sp = &sp["expansion"]["span"];
+                            }
+                            let file = sp["file_name"].as_str().unwrap_or("");
+                            if !file.ends_with("src/lib.rs") || file.starts_with('/') {
+                                internal(&format!("error located outside the probe file ({file}) in {target}: {text}"));
+                            }
                             let ln = sp["line_start"].as_u64().unwrap_or(0) as usize;
                             let d = res.entry(target.clone()).or_default().entry(ln).or_default();
                             d.codes.insert(code.clone());
@@ -371,7 +389,7 @@ fn main() {
     let flagged: Vec<&pubfns::FnRow> = collected
         .rows
         .iter()
-        .filter(|r| r.name_unchecked || r.has_safety_doc)
+        .filter(|r| r.name_unchecked || r.has_safety_doc || r.forwards.is_some())
         .collect();
     // the Lean side must see the same flagged rows (same generated table)
     let lean_flagged: BTreeSet<String> = {
@@ -405,36 +423,51 @@ fn main() {
     let probed: Vec<&pubfns::FnRow> = collected
         .rows
         .iter()
-        .filter(|r| r.name_unchecked || r.has_safety_doc || r.is_unsafe)
+        .filter(|r| r.name_unchecked || r.has_safety_doc || r.forwards.is_some() || r.is_unsafe)
         .collect();
+    // (row the verdict is about, the call to use)
+    let mut work: Vec<(&pubfns::FnRow, pubfns::ProbeCall, String)> = vec![];
     for r in &probed {
+        let must = r.name_unchecked || r.has_safety_doc || r.forwards.is_some();
         match &r.probe {
-            Ok(p) => {
-                let n = unsafe_rows.len();
-                let u_code = format!("fn u_{n}{}() {{ let _ = {}; }}", p.generics, p.call);
-                let s_code = format!("fn s_{n}{}() {{ unsafe {{ let _ = {}; }} }}", p.generics, p.call);
-                unsafe_src.push_str(&u_code);
-                unsafe_src.push('\n');
-                unsafe_src.push_str(&s_code);
-                unsafe_src.push('\n');
-                unsafe_rows.push(UnsafeRow {
-                    name: r.name.clone(),
-                    loc: r.loc.clone(),
-                    u_line: uline + 1,
-                    s_line: uline + 2,
-                    u_code,
-                    s_code,
-                });
-                uline += 2;
-            }
+            Ok(p) => work.push((r, p.clone(), r.name.clone())),
             Err(why) => {
-                if r.kind == ".macroBody" || !(r.name_unchecked || r.has_safety_doc) {
+                // a macro-generated method cannot be named; when it implements a public trait
+                // method, call it through the trait (`<SelfTy as MutVector>::set_len(…)`)
+                let via: Vec<&pubfns::FnRow> = collected
+                    .rows
+                    .iter()
+                    .filter(|d| d.kind == ".traitDecl" && d.simple == r.simple && d.probe.is_ok())
+                    .collect();
+                if r.kind == ".macroBody" && !via.is_empty() {
+                    for d in via {
+                        work.push((r, d.probe.clone().unwrap(), format!("{} via {}", r.name, d.name)));
+                    }
+                } else if r.kind == ".macroBody" || !must {
                     unprobed.push(json!({"row": r.name, "loc": r.loc, "reason": why}));
                 } else {
                     internal(&format!("cannot build a client call for {} ({}): {why}", r.name, r.loc));
                 }
             }
         }
+    }
+    for (r, p, label) in &work {
+        let n = unsafe_rows.len();
+        let u_code = format!("fn u_{n}{}() {{ let _ = {}; }}", p.generics, p.call);
+        let s_code = format!("fn s_{n}{}() {{ unsafe {{ let _ = {}; }} }}", p.generics, p.call);
+        unsafe_src.push_str(&u_code);
+        unsafe_src.push('\n');
+        unsafe_src.push_str(&s_code);
+        unsafe_src.push('\n');
+        unsafe_rows.push(UnsafeRow {
+            name: label.clone(),
+            loc: r.loc.clone(),
+            u_line: uline + 1,
+            s_line: uline + 2,
+            u_code,
+            s_code,
+        });
+        uline += 2;
     }
 
     // ------------------------------------------------------------------ C17 escape corpus
@@ -463,6 +496,7 @@ fn main() {
         line: usize,
         code: String,
         predicted_reject: bool,
+        must_not_outlive_receiver: bool,
     }
     let mut self_src = String::from(SELFESCAPE_PRELUDE);
     let mut self_rows: Vec<SelfRow> = vec![];
@@ -495,6 +529,7 @@ fn main() {
                     line: sline,
                     code,
                     predicted_reject: e.predicted_reject,
+                    must_not_outlive_receiver: e.must_not_outlive_receiver,
                 });
             }
         }
@@ -626,7 +661,7 @@ fn main() {
                 "property": "C17",
                 "kind": "impl-vs-oracle",
                 "input": [r.u_code.clone()],
-                "expected": format!("rejected with E0133: {} ({}) has an `_unchecked` name or a `# Safety` section, so it must be an unsafe fn", r.name, r.loc),
+                "expected": format!("rejected with E0133: {} ({}) has an `_unchecked` name or a `# Safety` section or merely forwards its parameters to an unsafe callee, so it must be an unsafe fn", r.name, r.loc),
                 "observed": "rustc accepts the call without an unsafe block",
                 "profile": "check"
             })),
@@ -676,6 +711,7 @@ fn main() {
         }
     }
     let mut n_self_reject = 0;
+    let mut n_spec_checked = 0;
     let mut self_programs: BTreeMap<String, (String, bool)> = BTreeMap::new();
     for r in &self_rows {
         let rejected = match sd.get(&r.line) {
@@ -691,6 +727,25 @@ fn main() {
             n_self_reject += 1;
         }
         self_programs.insert(r.name.clone(), (r.code.clone(), rejected));
+        // the property itself: a reference (or anything from a type holding a `&mut` borrow)
+        // obtained through `&self` must not outlive the receiver, reviewed exceptions aside
+        if r.must_not_outlive_receiver && !rejected {
+            n_spec_checked += 1;
+            match ask(&format!("escape_exempt {}", r.name)).as_str() {
+                "1" => {}
+                "0" => disagreements.push(json!({
+                    "property": "C17",
+                    "kind": "impl-vs-oracle",
+                    "input": [r.code.clone()],
+                    "expected": format!("C17: rejected by the borrow checker — the result of {} ({}) borrows from a local receiver that is gone (it is not a reviewed borrowed-view / never-borrowed function)", r.name, r.loc),
+                    "observed": "rustc accepts: the result outlives the receiver it was obtained from through &self",
+                    "profile": "check"
+                })),
+                other => internal(&format!("lean driver answered `{other}` to escape_exempt {}", r.name)),
+            }
+        } else if r.must_not_outlive_receiver {
+            n_spec_checked += 1;
+        }
         if rejected != r.predicted_reject {
             disagreements.push(json!({
                 "property": "C17",
@@ -754,12 +809,13 @@ fn main() {
         distribution.insert("c17_escape_as_expected".into(), json!(n_escape_ok));
         distribution.insert("c17_selfescape_programs".into(), json!(self_rows.len()));
         distribution.insert("c17_selfescape_rejected".into(), json!(n_self_reject));
+        distribution.insert("c17_selfescape_must_not_outlive_receiver".into(), json!(n_spec_checked));
         distribution.insert("c17_selfescape_skipped".into(), json!(self_skipped));
         distribution.insert("c17_table_rows".into(), json!(collected.rows.len()));
         distribution.insert("c17_sites".into(), json!(collected.sites.len()));
         rules.push("C17: every `_unchecked`/`# Safety`/unsafe row of the public-function table called without `unsafe` is rejected (E0133) and compiles inside `unsafe {}`; every escape-corpus program gets the expected borrowck verdict and the model's `tied` answer; every self-escape program's verdict equals the lifetime skeleton's prediction; the compiled Gen/PubFns flags the same rows as the source; plus the row predicates of the C17 theorems (`rows_c17`)");
         // + `tied` answers of the corpus, the stale-table check, rows_c17
-        checked += escape.iter().filter(|p| p.row.is_some()).count() + 2;
+        checked += escape.iter().filter(|p| p.row.is_some()).count() + 2 + n_spec_checked;
         nontrivial += unsafe_rows.len() + escape.iter().filter(|p| p.must_fail).count() + n_self_reject;
         for r in unsafe_rows.iter().take(2) {
             samples.push(json!({"program": r.u_code, "rustc": "reject (E0133)", "row": r.name}));
